@@ -5,7 +5,7 @@
 import os, sys, json, subprocess, re, shutil, glob
 from concurrent.futures import ThreadPoolExecutor
 
-SRC = "/tmp/mut/out"
+SRC = os.environ.get("SEED_SRC", "/tmp/mut/out")
 WT = "/var/tmp/seedwt"
 FEAT = "net-std,net-tokio,net-async-std,net-smol"
 
